@@ -478,10 +478,12 @@ func TestVerifC16(t *testing.T) {
 	verifSQL.SetHook(pl, nil)
 	// (2) real concurrency: the same one-time value fired from two goroutines at once
 	c16Simultaneous(w, rep)
+	c16SimultaneousOffline(w, rep, pl)
 	rep.Floor("schedules_b", 40)
 	rep.Floor("schedules_c", 12)
 	rep.Floor("onetime_honoured_once", 6)
 	rep.Floor("simultaneous_rounds", 30)
+	rep.Floor("simultaneous_offline_honoured_once", 8)
 }
 
 func c16Simultaneous(w *c16World, rep *verifReport) {
@@ -548,6 +550,67 @@ func c16Simultaneous(w *c16World, rep *verifReport) {
 			if n > 1 {
 				rep.Violate("C16/double-spend/simultaneous/bootstrap-otp", fmt.Sprintf("one bootstrap OTP fired from 3 requests at once was honoured %d times", n), map[string]int{"round": i, "honoured": n})
 			}
+		}
+	}
+}
+
+// c16SimultaneousOffline: one valid TOTP code fired from several requests at once while the primary store does not
+// answer.  Profiles then come from the cache and the used-code counter cannot be stored: whatever keeps the code
+// single-use has to work in memory, between requests that run at the same time.
+func c16SimultaneousOffline(w *c16World, rep *verifReport, pl string) {
+	rounds, width := 12, 8
+	if verifThorough() {
+		rounds = 150
+	}
+	w.reset()
+	if err := w.env.SyncCache(); err != nil {
+		rep.Inconc("cache synchronisation failed: %v", err)
+		return
+	}
+	gate := newVerifOutage()
+	verifSQL.SetHook(pl, gate.Hook)
+	w.env.SetOutage(gate, true)
+	defer func() {
+		w.env.SetOutage(gate, false)
+		verifSQL.SetHook(pl, nil)
+		w.env.SetRemoteDBTimeout(5 * time.Minute)
+	}()
+	ca := verifSigner("ca_rsa2048")
+	for i := 0; i < rounds; i++ {
+		w.env.ResetVolatile()
+		code := verifTOTPCode(w.secret, time.Now())
+		out := make([]*verifResp, width)
+		var wg sync.WaitGroup
+		start := make(chan struct{})
+		for k := 0; k < width; k++ {
+			ck := verifMint(verifSessionClaims(w.user, verifBit["password"], time.Now().Add(-time.Duration(k+1)*time.Minute), 16*time.Hour), ca)
+			r := verifReq{Method: "POST", Path: "/api/v0/TOTPAuth", Form: url.Values{"OTP": {code}}, Cookies: verifCk(ck)}.Build()
+			wg.Add(1)
+			go func(k int) {
+				defer wg.Done()
+				<-start
+				out[k] = w.env.Do(r)
+			}(k)
+		}
+		close(start)
+		wg.Wait()
+		n := 0
+		var codes []int
+		for _, r := range out {
+			codes = append(codes, r.Code)
+			if w.honoured(r, "TOTP") {
+				n++
+			}
+		}
+		rep.Eval(fmt.Sprintf("simultaneous-offline|totp-code|honoured=%d", n))
+		rep.Count("simultaneous_offline_rounds", 1)
+		switch {
+		case n > 1:
+			rep.Violate("C16/double-spend/simultaneous/totp-code-primary-unreachable",
+				fmt.Sprintf("one TOTP code fired from %d requests at once while the primary store was unreachable was honoured %d times", width, n),
+				map[string]interface{}{"round": i, "honoured": n, "statuses": codes})
+		case n == 1:
+			rep.Count("simultaneous_offline_honoured_once", 1)
 		}
 	}
 }
